@@ -3,7 +3,7 @@
 import json, os, shutil, sys
 prop, letter, caught = sys.argv[1], sys.argv[2], sys.argv[3]
 detail = " ".join(sys.argv[4:])
-src = "/tmp/seed/%s/SEED/%s" % (prop, letter)
+src = "/tmp/seedkeep/%s/%s" % (prop, letter)
 dst = "/verif/seeded/%s-%s" % (prop, letter)
 os.makedirs(dst, exist_ok=True)
 patch = os.path.join(src, "patch.rebased.diff") if os.path.exists(os.path.join(src, "patch.rebased.diff")) else os.path.join(src, "patch.diff")
